@@ -350,7 +350,8 @@ user_exists(const string *localpart, const char *domain, struct userconf *dsp)
 			userconf_free(ds);
 			return res;
 		}
-		p = strchr(p + 1, '-');
+		/* localpart->s is not terminated at localpart->len, the domain follows */
+		p = memchr(p + 1, '-', localpart->len - (p + 1 - localpart->s));
 	}
 
 	/* does USERPATH/DOMAIN/.qmail-default exist ? */
